@@ -250,6 +250,11 @@ func rulePBNil(r *Run) {
 				if strings.HasPrefix(c, "&lit:") || strings.Contains(c, "call:timestamppb.Now") {
 					return // built by the server on this path
 				}
+				if strings.HasPrefix(c, "param:") && fn.Obj != nil && !fn.Obj.Exported() && r.P.isGlue(fn.Obj) && len(r.callersOf(fn.Obj)) > 0 {
+					// what an unexported helper is handed: judged at its call sites, where the helper is looked into
+					// with the caller's nil tests in force (or, when it is not, through its dereference summary)
+					return
+				}
 				nUses++
 				what := "field access"
 				if via != "" {
